@@ -803,14 +803,20 @@ func (Prop) RunUnit(env *kernel.Env, unit int) {
 			}
 			// arbitrary token-level mutations: insert any kind of token at any boundary
 			q.TokenFault = false
-			bs := q.boundaries()
-			for m := 0; m < 3*len(bs); m++ {
+			for m, nm := 0, 3*len(q.boundaries()); m < nm; m++ {
+				qq := q
+				if r.Bool(0.12) {
+					// text that starts with a byte order mark (or another character the lexer rejects or
+					// skips): whatever the command does with it, the position it prints must be a
+					// position in the text it was given
+					qq.Tokens = append([]string{kernel.Pick(r, []string{"\ufeff", "\ufeff", "\u200b", "\u00a0", "\ufeff\ufeff"}) + q.Tokens[0]}, q.Tokens[1:]...)
+				}
+				bs := qq.boundaries()
 				tok := kernel.Pick(r, tokenCatalogue)
 				c := Corruption{Kind: "insert", Pos: bs[r.Intn(len(bs))], Bytes: tok + " ", Off: 0}
-				if c.Pos == len(q.Text()) {
+				if c.Pos == len(qq.Text()) {
 					c.Bytes = " " + tok
 				}
-				qq := q
 				d := &Data{Format: "query", Query: &qq, Corrupt: c, Transport: kernel.Pick(r, []string{"arg", "fromfile", "module"}), FromLibrary: true}
 				if !try(d) {
 					break
